@@ -906,71 +906,89 @@ func ruleSlotCtxArgument() check.Rule {
 	}
 }
 
-// CALLBACK-CTX-USED: a context returned by a context-aware user callback is the one to pass on.
+// CALLBACK-CTX-USED: a context returned by a call is the one to pass on.
 func ruleCallbackCtxUsed() check.Rule {
 	return check.Rule{
 		Name: "CALLBACK-CTX-USED",
-		Doc:  "where a user callback called in an upstream observer's slot returns a context that is bound to a variable, every notification sent to the destination from that slot at a point all of whose paths pass that binding carries that variable (or a context derived from it), not the context the slot received: a context-aware predicate / projection may attach values for downstream",
+		Doc:  "where a call made by an operator (a context-aware user callback, CollectWithContext, a helper; not the context package itself) returns a context that is bound to a variable, every notification sent to the destination from the same function at a point all of whose paths pass that binding carries that variable (or a context derived from it): a context-aware predicate / projection may attach values for downstream, and the context returned by CollectWithContext is the one the stream ended with",
 		Run: func(c *check.Ctx) {
 			m := c.M
 			n := 0
 			for _, sc := range m.SCs {
 				armed := c.Armed(sc)
 				info := sc.Pkg.TypesInfo
-				for _, u := range sc.UserCalls {
-					if u.Ctx == nil || u.Ctx.Kind != model.KSrc || u.Call == nil {
-						continue
+				var fns []ast.Node
+				ast.Inspect(sc.Lit, func(x ast.Node) bool {
+					if l, ok := x.(*ast.FuncLit); ok {
+						fns = append(fns, l)
 					}
-					as, ok := m.Parent(u.Pkg, u.Call).(*ast.AssignStmt)
-					if !ok || len(as.Rhs) != 1 || len(as.Lhs) < 1 {
-						continue
-					}
-					id, ok := as.Lhs[0].(*ast.Ident)
-					if !ok || id.Name == "_" {
-						continue
-					}
-					v, ok := objOf(u.Pkg.TypesInfo, id).(*types.Var)
-					if !ok || !model.IsContext(v.Type()) {
-						continue
-					}
-					fn := innermostFunc(m, u.Pkg, u.Call)
+					return true
+				})
+				for _, fn := range fns {
 					body := funcBody(fn)
 					if body == nil {
 						continue
 					}
-					for _, e := range sc.Emits {
-						if !e.ToDest || e.Forwarder || e.CtxArg == nil || e.Ctx != u.Ctx || e.Slot != u.Slot || innermostFunc(m, e.Pkg, e.Node) != fn || e.Pos < as.Pos() {
-							continue
+					ast.Inspect(body, func(x ast.Node) bool {
+						if l, ok := x.(*ast.FuncLit); ok && ast.Node(l) != fn {
+							return false
 						}
-						if !pathsPassBefore(body, e.Node, func(nd ast.Node) bool { return nd.Pos() <= as.Pos() && as.End() <= nd.End() }) {
-							continue
+						as, ok := x.(*ast.AssignStmt)
+						if !ok || len(as.Rhs) != 1 {
+							return true
 						}
-						n++
-						key := e.Key + "/uses-callback-ctx"
-						root := ast.Unparen(e.CtxArg)
-						for depth := 0; depth < 6; depth++ {
-							call, isCall := root.(*ast.CallExpr)
-							if !isCall {
-								break
+						call, ok := ast.Unparen(as.Rhs[0]).(*ast.CallExpr)
+						if !ok {
+							return true
+						}
+						if cl := model.Callee(info, call); cl != nil && cl.Pkg() != nil && cl.Pkg().Path() == "context" {
+							return true
+						}
+						for _, l := range as.Lhs {
+							id, ok := l.(*ast.Ident)
+							if !ok || id.Name == "_" {
+								continue
 							}
-							cl := model.Callee(info, call)
-							if cl == nil || cl.Pkg() == nil || cl.Pkg().Path() != "context" || !strings.HasPrefix(cl.Name(), "With") || len(call.Args) == 0 {
-								break
+							v, ok := objOf(info, id).(*types.Var)
+							if !ok || !model.IsContext(v.Type()) {
+								continue
 							}
-							root = ast.Unparen(call.Args[0])
-						}
-						rid, isID := root.(*ast.Ident)
-						if isID && objOf(e.Pkg.TypesInfo, rid) == types.Object(v) {
-							if armed {
-								c.OK(key, e.Pos, "carries the context returned by %s", u.Param.Name())
+							for _, e := range sc.Emits {
+								if !e.ToDest || e.Forwarder || e.CtxArg == nil || e.Pkg != sc.Pkg || innermostFunc(m, e.Pkg, e.Node) != fn || e.Pos < as.Pos() {
+									continue
+								}
+								if !pathsPassBefore(body, e.Node, func(nd ast.Node) bool { return nd.Pos() <= as.Pos() && as.End() <= nd.End() }) {
+									continue
+								}
+								n++
+								key := e.Key + "/uses-returned-ctx"
+								root := ast.Unparen(e.CtxArg)
+								for depth := 0; depth < 6; depth++ {
+									c2, isCall := root.(*ast.CallExpr)
+									if !isCall {
+										break
+									}
+									cl := model.Callee(info, c2)
+									if cl == nil || cl.Pkg() == nil || cl.Pkg().Path() != "context" || !strings.HasPrefix(cl.Name(), "With") || len(c2.Args) == 0 {
+										break
+									}
+									root = ast.Unparen(c2.Args[0])
+								}
+								rid, isID := root.(*ast.Ident)
+								if isID && objOf(info, rid) == types.Object(v) {
+									if armed {
+										c.OK(key, e.Pos, "carries the context returned by %s", types.ExprString(call.Fun))
+									}
+								} else {
+									c.Report(armed, key, e.Pos, "the %s notification that follows the call of %s carries %s instead of the context that call returned (%s): values attached by the callee (or carried by the collected stream) are lost", model.SlotNames[e.Kind], types.ExprString(call.Fun), types.ExprString(e.CtxArg), v.Name())
+								}
 							}
-						} else {
-							c.Report(armed, key, e.Pos, "the %s notification that follows the call of %s carries %s instead of the context that callback returned (%s): values the callback attached are lost", model.SlotNames[e.Kind], u.Param.Name(), types.ExprString(e.CtxArg), v.Name())
 						}
-					}
+						return true
+					})
 				}
 			}
-			c.Inc("callback_ctx_emissions", n)
+			c.Inc("returned_ctx_emissions", n)
 		},
 	}
 }
